@@ -456,6 +456,9 @@ top:
 		p.pos++
 		switch b {
 		case '\\':
+			if len(p.buf) <= p.pos {
+				goto fail
+			}
 			b = p.buf[p.pos]
 			p.pos++
 			switch b {
@@ -526,6 +529,9 @@ func (p *parser) readStr(term byte) string {
 			return p.readEscStr(start, term)
 		}
 	}
+	if p.pos == start {
+		p.raise("string not terminated")
+	}
 	return string(p.buf[start : p.pos-1])
 }
 
@@ -541,6 +547,9 @@ out:
 		case '\\':
 			p.pos++ // skip and then continue
 		}
+	}
+	if p.pos == start {
+		p.raise("regex not terminated")
 	}
 	rx, err := regexp.Compile(string(p.buf[start : p.pos-1]))
 	if err != nil {
@@ -565,11 +574,13 @@ func (p *parser) readFilter() *Filter {
 }
 
 func (p *parser) readProc() *Proc {
-	end := bytes.Index(p.buf, []byte{')', ']'})
+	// Look for the end of the procedure after its start, not in the part of
+	// the expression already read.
+	end := bytes.Index(p.buf[p.pos:], []byte{')', ']'})
 	if end < 0 {
 		p.raise("not terminated")
 	}
-	end++
+	end += p.pos + 1
 	code := p.buf[p.pos-1 : end]
 	p.pos = end + 1
 
@@ -668,7 +679,7 @@ func (p *parser) readToken() []byte {
 }
 
 func (p *parser) readOpArgs(o *op) (eq *Equation) {
-	if p.buf[p.pos] != '(' {
+	if len(p.buf) <= p.pos || p.buf[p.pos] != '(' {
 		p.raise("expected a %s function", o.name)
 	}
 	eq = &Equation{o: o}
